@@ -728,3 +728,69 @@ def place(world, mode, r=None, where_ok=True):
 def mk_case(tag, world, mode, tree, arg, inp, torrent=None):
     return {"tag": tag, "tree": tree, "torrent": torrent if torrent is not None else {b"info": world.info},
             "mode": mode, "arg": arg, "input": inp}
+
+
+# ------------------------------------------------------------------ piece lengths beyond the verifier's read-buffer sizes
+def big_piece_cases(ctx):
+    """create, verify, change one byte, verify, undo, verify - with piece lengths above and between the sizes a read
+    buffer is likely to have (1 MiB, 16 MiB) and content longer than a piece, so that one piece needs several reads.
+    Oracle only (the extracted model would take minutes on 20 MB of bytes): a torrent imdl has just created verifies against
+    the unmodified content, fails after a real change and verifies again after the change is undone. (Added after seeded
+    changes C03-8 and C02-8: a capped read buffer with the piece boundary recomputed from the buffer length.)"""
+    import random
+    MiB = 1 << 20
+    plan = [(3 * MiB // 2, 4 * MiB + 3, False), (MiB + 1, 3 * MiB, True), (32 * MiB, 20 * MiB + 5, False), (3 * MiB, 7 * MiB, True)]
+    if ctx.thorough:
+        plan += [(17 * MiB, 40 * MiB + 1, False), (2 * MiB - 1, 9 * MiB, True)]
+    tmp = tempfile.mkdtemp(prefix="bigp-")
+    try:
+        for p, size, multi in plan:
+            d = tempfile.mkdtemp(dir=tmp)
+            rnd = random.Random(p * 31 + size)
+            root = os.path.join(d, "in")
+            if multi:
+                os.makedirs(root)
+                cut = size // 3 + 11
+                data = rnd.randbytes(size)
+                files = {"a": data[:cut], "b": data[cut:]}
+                for n, b in files.items():
+                    with open(os.path.join(root, n), "wb") as f:
+                        f.write(b)
+                target = os.path.join(root, "b")
+            else:
+                with open(root, "wb") as f:
+                    f.write(rnd.randbytes(size))
+                target = root
+            argv = ["torrent", "create", "--input", "in", "--piece-length", str(p), "--allow", "uneven-piece-length"]
+            rc, out, err = ctx.imdl(argv, cwd=d, timeout=300)
+            steps = [("create", rc)]
+            verdicts = []
+            if rc == 0:
+                off = (2 * size) // 3
+                for what in ("unchanged", "one byte changed", "change undone"):
+                    if what == "one byte changed":
+                        with open(target, "r+b") as f:
+                            f.seek(off % os.path.getsize(target)); old = f.read(1)
+                            f.seek(off % os.path.getsize(target)); f.write(bytes([old[0] ^ 0x40]))
+                    elif what == "change undone":
+                        with open(target, "r+b") as f:
+                            f.seek(off % os.path.getsize(target)); f.write(old)
+                    r2, o2, e2 = ctx.imdl(["torrent", "verify", "--input", "in.torrent"], cwd=d, timeout=300)
+                    verdicts.append((what, r2, e2.decode("utf-8", "replace")[-200:]))
+            ctx.cov["evaluations"] += 1
+            ctx.count("big_piece_create_verify")
+            ctx.distinct(("bigpiece", p, size, multi))
+            want = [0, 1, 0]
+            got = [v[1] for v in verdicts]
+            if rc != 0 or got != want:
+                ctx.violation("oracle-failure",
+                              "piece length %d, %d bytes of content (%s): create exited %d; verify exited %r for (unchanged, one byte changed, "
+                              "change undone), expected [0, 1, 0]" % (p, size, "two files" if multi else "one file", rc, got),
+                              {"kind": "big-piece", "piece_length": p, "content_bytes": size, "multi": multi, "create_rc": rc,
+                               "create_stderr": err.decode("utf-8", "replace")[-300:], "verify": verdicts,
+                               "reproduce": "head -c %d /dev/urandom > in (or in/a + in/b); imdl %s; imdl torrent verify --input in.torrent; "
+                                            "change one byte; verify; undo; verify" % (size, " ".join(argv))})
+            shutil.rmtree(d, ignore_errors=True)
+    finally:
+        shutil.rmtree(tmp, ignore_errors=True)
+
